@@ -1,8 +1,9 @@
 """C07 - identifiers resolve lexically; statement meaning ignores unrelated statements.
 
-Space : one probe statement text (7 forms using the colliding names `a` and `n`: as argument,
-        as array name, as array index, as loop count, passed to a macro) placed in every
-        set of 2-3 scopes out of {main body before the macros, main body after them, macro
+Space : one probe statement text (10 forms using the colliding names `a` and `n`: as argument,
+        as array name, as array index, as loop count, as subcircuit count, passed to a macro, inside an
+        index passed to a macro whose own parameter is called n) placed in every
+        set of 2-4 (thorough 5) scopes out of {main body before the macros, main body after them, macro
         with a parameter of the colliding name, macro with other parameters, loop body,
         parallel block} x the header binding of `a` (let / fundamental register / strided alias
         / single-qubit alias / none) x both textual orders of the macro definitions and of the
@@ -11,7 +12,9 @@ Oracle: for the program and for every sub-program obtained by deleting one body 
         (differential: the meaning of a statement must not depend on unrelated statements):
         the symbolic form read from the parsed IR equals the model's (named references:
         parameter vs let vs register), and the denotation equals the model's under both
-        readings of a macro call, also after expand_macros and after fill_in_let.
+        readings of a macro call, also after expand_macros and after fill_in_let; the same program
+        handed to the builder as an S-expression made of lists and made of tuples gives the same
+        named references and denotation as the parsed text.
 """
 import itertools
 
@@ -36,6 +39,9 @@ PROBES = {
     "let-arg": A.gate("g", "n", "a"),
     "call": A.gate("mm", "a"),
     "loop": A.loop("n", A.seq(A.gate("g", "a"))),
+    "index-n": A.gate("g", A.item("q", "n")),
+    "sub": A.sub("n", A.gate("g", "a")),
+    "call-index": A.gate("mm", A.item("q", "n"), "a"),
 }
 
 # arguments with which the shadowing macro `ms a n` is called so that the probe is valid there
@@ -47,10 +53,14 @@ SHADOW_ARGS = {
     "let-arg": [(A.item("q", 1), 7)],
     "call": [(A.item("q", 0), 1)],
     "loop": [(A.item("q", 0), 2)],
+    "index-n": [(A.item("q", 0), 2), (1.5, 1)],
+    "sub": [(A.item("q", 1), 2)],
+    "call-index": [(A.item("q", 1), 2)],
 }
 
 SCOPES = ("main-before", "main-after", "shadow-macro", "other-macro", "loop", "par")
 MM = A.macro("mm", ("z",), A.seq(A.gate("h", "z")))
+MM2 = A.macro("mm", ("z", "n"), A.seq(A.gate("h", "z", "n")))  # its own parameter n shadows the let n
 
 
 def build_program(binding, probe_name, scopes, shadow_arg, macro_order, body_order):
@@ -60,6 +70,8 @@ def build_program(binding, probe_name, scopes, shadow_arg, macro_order, body_ord
     macros = []
     if probe_name == "call":
         macros.append(MM)
+    if probe_name == "call-index":
+        macros.append(MM2)
     defs = []
     calls = []
     before = []
@@ -92,11 +104,13 @@ def build_program(binding, probe_name, scopes, shadow_arg, macro_order, body_ord
     return A.prog(header, body)
 
 
-def all_programs(tier):
+def all_programs(tier, only=None):
     seen = set()
-    sizes = (2, 3, 4) if tier != "quick" else (2, 3)
+    sizes = (2, 3, 4, 5) if tier != "quick" else (2, 3, 4)
     for binding in HEADERS:
         for pname in PROBES:
+            if only is not None and (binding, pname) != tuple(only):
+                continue
             for r in sizes:
                 for scopes in itertools.combinations(SCOPES, r):
                     for sarg in SHADOW_ARGS[pname] if "shadow-macro" in scopes else [None]:
@@ -113,6 +127,14 @@ def all_programs(tier):
                                     yield p
 
 
+def _as_lists(x):
+    return [_as_lists(v) for v in x] if isinstance(x, (list, tuple)) else x
+
+
+def _as_tuples(x):
+    return tuple(_as_tuples(v) for v in x) if isinstance(x, (list, tuple)) else x
+
+
 def subprograms(p):
     yield p
     _, header, body = p
@@ -126,7 +148,7 @@ class C07(Check):
     id = "C07"
     nshards = 32
     rule = (
-        "probe text (7 forms) x sets of 2-3 scopes out of 6 x header binding of the colliding name (5) x "
+        "probe text (10 forms) x sets of 2-4 (thorough 5) scopes out of 6 x header binding of the colliding name (5) x "
         "arguments of the shadowing macro x both orders of macro definitions and of main-body statements, "
         "kept when the model finds the program valid; each with all its single-deletion sub-programs; "
         "non-trivial = the probe occurs in a macro that shadows the name AND in another scope"
@@ -137,10 +159,17 @@ class C07(Check):
     )
 
     def bounds(self, tier):
-        return {"scopes_per_program": [2, 3] if tier == "quick" else [2, 3, 4], "probes": len(PROBES), "bindings": len(HEADERS)}
+        return {"scopes_per_program": [2, 3, 4] if tier == "quick" else [2, 3, 4, 5], "probes": len(PROBES), "bindings": len(HEADERS)}
 
     def all_cases(self, tier):
         return all_programs(tier)
+
+    # one shard per (header binding, probe): a shard enumerates (and validates) only its own programs
+    def shards(self, tier):
+        return [(b, pn) for b in HEADERS for pn in PROBES]
+
+    def cases(self, tier, shard):
+        return all_programs(tier, only=shard)
 
     def show(self, case):
         return render.text(case)
@@ -170,6 +199,20 @@ class C07(Check):
             ctx.state(got_sym)
             if got_sym != want_sym:
                 ctx.fail("binding", "named references differ\nmodel          %r\nimplementation %r" % (want_sym, got_sym), case=q)
+            for route, conv in (("build-lists", _as_lists), ("build-tuples", _as_tuples)):
+                ctx.trace()
+                try:
+                    cb = impl.build(conv(render.sexpr(q)))
+                except Exception as ex:  # noqa: BLE001
+                    ctx.fail("build-raises", "%s: %s: %s" % (route, type(ex).__name__, ex), case=q)
+                    continue
+                if abstraction.sym(cb) != want_sym:
+                    ctx.fail("binding", "%s: named references differ\nmodel          %r\nimplementation %r" % (route, want_sym, abstraction.sym(cb)), case=q)
+                for binding in ("gate_def", "name"):
+                    got = abstraction.den(cb, binding=binding)
+                    if got != want_den:
+                        ctx.fail("meaning", "%s (%s reading)\nmodel          %r\nimplementation %r" % (route, binding, want_den, got), case=q)
+                        break
             for label, circ in (("parse", c), ("expand_macros", None), ("fill_in_let", None), ("let+macros", None), ("let+map", None), ("let+map+macros", None)):
                 try:
                     if label == "let+map":
